@@ -7,7 +7,7 @@ from pyval import val_coq, res_coq, Realiser, TargetGen, exc_outcome, Unrepresen
 
 ID = 'C01'
 PROPERTY_FILE = 'Properties/C01'
-MODEL_FILES = ['Model/TEval', 'Model/Exc', 'Corr/C01', 'Proofs/TEvalProofs']
+MODEL_FILES = ['Model/TEval', 'Model/Exc', 'Spec/PathSpec', 'Corr/C01']
 GENERATED_DEPS = ['TOpTable.v', 'ExcTable.v']
 COQ_HEADER = ('From Coq Require Import String ZArith List.\nImport ListNotations.\n'
               'From Glom Require Import Base.PyVal Model.TEval Model.Exc Corr.C01.\n'
